@@ -112,6 +112,7 @@ def run(p, report, tier):
         for _k, _v in it.stats.items():
             callstats[_k] = callstats.get(_k, 0) + _v
         check_entity(p, report, ci, f, it)
+    report.analysed["member_copy_sites"] = check_member_copies(p, report, "R5.3")
     report.analysed["events"] = nev
     report.analysed["diagnostics"] = sorted(diag)
     report.analysed["call_resolution"] = callstats
@@ -125,3 +126,42 @@ def run(p, report, tier):
         "numpy/sklearn functions do not write their inputs unless listed as in-place writers",
         "models reached only through **query_kwargs of a wrapped strategy are out of scope",
     ]
+
+
+def check_member_copies(p, report, rule):
+    """A list / tuple of caller-supplied estimators is deep-copied before its members are used (fitted,
+    or asked to predict - which consumes their random_state_): a shallow copy shares the members."""
+    n = 0
+    for f in p.all_functions():
+        if not f.file.startswith("skactiveml/pool") or "/tests/" in f.file:
+            continue
+        params = set(f.all_param_names())
+        for st in ast.walk(f.node):
+            if not (isinstance(st, ast.Assign) and isinstance(st.value, ast.Call) and st.value.args
+                    and isinstance(st.value.args[0], ast.Name) and st.value.args[0].id in params):
+                continue
+            fn = st.value.func
+            name = fn.attr if isinstance(fn, ast.Attribute) else (fn.id if isinstance(fn, ast.Name) else None)
+            if name not in ("copy", "deepcopy", "list", "tuple"):
+                continue
+            src = st.value.args[0].id
+            # only containers of estimators: the same function indexes the copy and calls a member method
+            tgt = st.targets[0].id if isinstance(st.targets[0], ast.Name) else None
+            if tgt is None:
+                continue
+            member_calls = [c for c in ast.walk(f.node) if isinstance(c, ast.Call) and isinstance(c.func, ast.Attribute)
+                            and isinstance(c.func.value, ast.Subscript) and isinstance(c.func.value.value, ast.Name)
+                            and c.func.value.value.id == tgt and c.func.attr in ("fit", "partial_fit", "predict",
+                                                                                 "predict_proba", "predict_freq")]
+            member_checks = [c for c in ast.walk(f.node) if isinstance(c, ast.Call) and c.args
+                             and isinstance(c.args[0], ast.Subscript) and isinstance(c.args[0].value, ast.Name)
+                             and c.args[0].value.id == tgt]
+            if not member_calls and not member_checks:
+                continue
+            n += 1
+            ok = name == "deepcopy"
+            report.add(rule, f.qual, f"members of `{src}` are private copies: `{norm_stmt(st, 50)}`", f"{f.file}:{st.lineno}", ok,
+                       detail="deep copy of the container" if ok else
+                       f"`{name}` shares the member estimators with the caller: fitting them alters the caller's models, "
+                       "and predicting with pre-fitted members consumes their generators (repeated queries differ)")
+    return n
